@@ -244,11 +244,11 @@ def chk_synd(case, note):
 
 
 LEGS = [
-    Leg("three_way", chk_three_way, strategy=s_frame, quick=24000, thorough=1500000,
+    Leg("three_way", chk_three_way, strategy=s_frame, quick=24000, thorough=800000,
         doc="crc == bit-serial reference == crc_legacy, both modes, both lengths, three letter cases"),
-    Leg("parity_closure", chk_closure, strategy=s_closure, quick=16000, thorough=800000,
+    Leg("parity_closure", chk_closure, strategy=s_closure, quick=16000, thorough=400000,
         doc="encode ignores the parity field; frame+parity checks to 0"),
-    Leg("linearity", chk_lin, strategy=s_lin, quick=16000, thorough=800000, doc="crc(a^b)=crc(a)^crc(b)"),
+    Leg("linearity", chk_lin, strategy=s_lin, quick=16000, thorough=400000, doc="crc(a^b)=crc(a)^crc(b)"),
     Leg("detect_direct", chk_direct, enum=enum_direct, quick=4, thorough=48,
         doc="valid frame x every weight<=3 pattern, every burst<=12 at every offset, sampled w4-5 / bursts 13-24"),
     Leg("syndrome_closure", chk_synd, enum=enum_closure, quick=1, thorough=1, exhaustive=True,
